@@ -40,7 +40,9 @@ func lineBufs(p *core.Prog, h *handlerInfo) map[*ssa.Function]map[ssa.Value]bool
 			sx.Instrs(f, func(in ssa.Instruction) {
 				switch x := in.(type) {
 				case *ssa.Call:
-					if c := sx.StaticCallee(x); c != nil && getters[c] && c.Signature.Recv() == nil {
+					// the line buffer comes from the getter that takes nothing (`newBuffer()`); a getter that is a method of the
+					// handler or is given the group path (`h.prefix()`, `newPrefix(h.groupPrefix)`) hands out the key scratch
+					if c := sx.StaticCallee(x); c != nil && getters[c] && c.Signature.Recv() == nil && c.Signature.Params().Len() == 0 {
 						add(f, x)
 					}
 				case *ssa.FieldAddr:
